@@ -94,7 +94,11 @@ class EnvModel(ClassModel):
         return SV(CLOCK, I.getfield(env, 'start').t[n.t])
 
     def m_atomically(self, I, env, action):
-        return I.call(action, [env], {})
+        I.atomic_depth = getattr(I, 'atomic_depth', 0) + 1
+        try:
+            return I.call(action, [env], {})
+        finally:
+            I.atomic_depth -= 1
 
 
 def _add_accessors(model_cls, members):
